@@ -166,6 +166,18 @@ def run(ctx):
     imp2 = repo.lookup(repo.modules['core.wl.object'], 'number_to_letter_id')
     ctx.check(imp and imp2 and imp[0] == 'func' and imp2[0] == 'func' and imp[1].module is imp2[1].module, 'C14.2', 'same-module', f_enc.loc(), 'label side and matcher side use the two converters of one module')
 
+    # distinct objects of one id get distinct letters only if the object table invariant (C02) and the liveness discipline that
+    # lets an id be reused (C03) hold: their findings are findings against label uniqueness as well
+    from ..report import Ctx as _Ctx
+    from . import c02 as _c02, c03 as _c03
+    nlift = 0
+    for mod, pid in ((_c02, 'C02'), (_c03, 'C03')):
+        sub = _Ctx(pid, repo, tier=ctx.tier, quiet=True)
+        mod.run(sub)
+        nlift += len(sub.obligations)
+        for v in sub.violations:
+            ctx.violation('C14.2', 'label-uniqueness:%s:%s' % (v['rule'], v['key']), v['site'], 'label uniqueness rests on %s: %s' % (v['rule'], v['msg']), v['witness'])
+    ctx.ok('C14.2', f_enc.loc(), 'label-uniqueness:object-table-invariant', 'the %d obligations of C02 (db[k][g].generation == g, append-only) and C03 (reuse only after destruction) were evaluated for label uniqueness' % nlift)
     # ---- C14.3 ------------------------------------------------------------------------------------------
     from .c04 import check_naming
     check_naming(ctx, 'C14.3')
